@@ -44,6 +44,20 @@ CSELECTS = [
     ("SELECT $this ?value WHERE { $this $PATH ?value . FILTER (?value = $arg) }", True),
     ("SELECT $this ?value WHERE { $this ex:p ?value . FILTER (isLiteral(?value)) }", False),
 ]
+# component validators SHACL-SPARQL forbids: the component's parameter is a pre-bound variable as well
+FORBIDDEN_ASKS = [
+    "ASK { BIND (20 AS ?arg) FILTER ($value != $arg) }",
+    "ASK { $value ex:p ?x . MINUS { $value ex:q ?x } }",
+    "ASK { VALUES ?x { 1 2 } $value ex:p ?x }",
+    "ASK { BIND ($this AS ?value) }",
+]
+FORBIDDEN_CSELECTS = [
+    "SELECT $this ?value WHERE { $this ex:p ?value . BIND (20 AS ?arg) }",
+    "SELECT $this (?x AS ?arg) WHERE { $this ex:p ?x }",
+    "SELECT $this ?value WHERE { $this ex:p ?value . MINUS { $this ex:q ?value } }",
+    "SELECT $this WHERE { { SELECT ?v WHERE { ?s ex:p ?v } } $this ex:p ?v }",
+    "SELECT $this ?value WHERE { $this ex:p ?x . BIND (?x AS ?this) }",
+]
 CMESSAGES = ["Value {$value} on {$this} arg {$arg}", "plain"]
 
 
